@@ -145,11 +145,23 @@ def r1_flag_agreement(run, w):
       len(lc.keywords) != 1 + len(named):
     raise AnalysisError("getSummarySourceGroup: lookup is not lookup_records(**{key: value})")
   key, val = kw[0].value.keys[0], kw[0].value.values[0]
-  test, vt, vf = _cond_value(rd, val)
-  ok = test is not None and H.is_self_attr(test, ctx.flag) and \
-      isinstance(vt, ast.Name) and vt.id == p_rec and \
-      isinstance(vf, ast.Call) and endswith(dotted(vf.func), "CONTAINS") and \
-      [text(a) for a in vf.args] == [p_rec] and not vf.keywords
+  rflow = H.Flow(rd)
+  def kind_of(e):
+    e = H.inline(rflow, e)
+    if isinstance(e, ast.Name) and e.id == p_rec:
+      return "rec"
+    if isinstance(e, ast.Call) and endswith(dotted(e.func), "CONTAINS") and \
+        [text(a) for a in e.args] == [p_rec] and not e.keywords:
+      return "contains"
+    return None
+  def flag_pols(atoms):
+    return {p for (t, p) in atoms if text(H.inline(rflow, t)) == "self." + ctx.flag}
+  vcases = H.value_cases(rd, rflow, val, rflow.node_of(lc))
+  kinds = [(kind_of(c.value), flag_pols(c.atoms)) for c in vcases]
+  if any(k is None for (k, fp) in kinds):
+    raise AnalysisError("getSummarySourceGroup: cannot read the lookup value %s" % short(val))
+  ok = {k for (k, fp) in kinds} == {"rec", "contains"} and \
+      all(fp == {k == "rec"} for (k, fp) in kinds)
   run.ob(R1, rd.qualname, "lookup value = %s if self.%s else CONTAINS(%s)"
          % (p_rec, ctx.flag, p_rec), "the group is looked up by identity when the helper column "
          "is a Reference and by membership when it is a ReferenceList -- under the same flag the "
@@ -163,6 +175,9 @@ def r1_flag_agreement(run, w):
   if ids and all(r.kind == "param" and r.node == ctx.p_sum and len(r.path) == 1 and
                  r.path[0][0] == "attr" for r in ids):
     helper = ids[0].path[0][1]
+  if helper is None or len(cr.args) < 2 or not isinstance(cr.args[1], ast.Name):
+    raise AnalysisError("_add_update_summary_col: cannot read which column %s creates"
+                        % short(cr, 70))
   ok = helper is not None and H.is_self_attr(key, helper) and \
       isinstance(cr.args[1], ast.Name) and cr.args[1].id == ctx.method_name
   run.ob(R1, rd.qualname, "lookup key self.%s  <->  writer's column id %s.%s"
@@ -187,7 +202,14 @@ def r1_flag_agreement(run, w):
   v = H.inline(H.Flow(rb), fl.value)
   ok = isinstance(v, ast.UnaryOp) and isinstance(v.op, ast.Not) and \
       isinstance(v.operand, ast.Call) and dotted(v.operand.func) == "any" and \
-      isinstance(v.operand.args[0], ast.GeneratorExp)
+      len(v.operand.args) == 1 and \
+      isinstance(v.operand.args[0], (ast.GeneratorExp, ast.ListComp)) and \
+      len(v.operand.args[0].generators) == 1 and \
+      isinstance(v.operand.args[0].elt, ast.Call) and \
+      dotted(v.operand.args[0].elt.func) == "isinstance"
+  if not ok:
+    raise AnalysisError("_rebuild_model: cannot read how self.%s is computed: %s"
+                        % (ctx.flag, short(v)))
   if ok:
     g = v.operand.args[0]
     ok = len(g.generators) == 1 and not g.generators[0].ifs and \
@@ -371,10 +393,24 @@ def r2_listlike(run, w):
   p = sg.fi.params()[0]
   flat = {}
   sgflow = H.Flow(sg)
+  def passthrough_of_param(e):
+    """p, or p.replace('A', 'B')... : the type string itself, possibly with prefixes rewritten"""
+    while isinstance(e, ast.Call) and isinstance(e.func, ast.Attribute) and \
+        e.func.attr == "replace":
+      e = e.func.value
+    return isinstance(e, ast.Name) and e.id == p
   for case in H.return_cases(sg.node):
     if case.value is None:
       continue
     v = H.inline(sgflow, case.value)
+    if not (isinstance(v, ast.Constant) or passthrough_of_param(v)):
+      raise AnalysisError("summary_groupby_col_type: cannot read the result %s" % short(v))
+    for (t, pol) in case.atoms:
+      if not (isinstance(t, ast.Compare) and len(t.ops) == 1 and
+              isinstance(t.ops[0], (ast.Eq, ast.NotEq)) and
+              any(text(x) == p for x in (t.left, t.comparators[0])) and
+              any(isinstance(x, ast.Constant) for x in (t.left, t.comparators[0]))):
+        raise AnalysisError("summary_groupby_col_type: cannot read the test %s" % short(t))
     eqs = []
     for (t, pol) in case.atoms:
       if isinstance(t, ast.Compare) and len(t.ops) == 1 and \
@@ -558,6 +594,9 @@ def r3_row_creation(run, w):
   ok = isinstance(v, ast.Call) and not scases[0].atoms and \
       text(v.func) == ctx.p_sum + ".lookupOrAddDerived" and \
       not v.args and len(v.keywords) == 1 and v.keywords[0].arg is None
+  if not ok or not isinstance(v.keywords[0].value, ast.DictComp):
+    raise AnalysisError("simple summary helper: cannot read what it returns: %s"
+                        % (short(v) if v is not None else "several returns"))
   if ok:
     d = v.keywords[0].value
     rec = sd.args.args[0].arg
@@ -577,7 +616,9 @@ def r3_row_creation(run, w):
     raise AnalysisError("lookupOrAddDerived: look-up or AddRecord not found")
   rec_var = [s.targets[0].id for s in walk_no_nested(la.node) if isinstance(s, ast.Assign) and
              s.value is look[0][1] and isinstance(s.targets[0], ast.Name)]
-  ok = len(look) == 1 and len(adds) == 1 and bool(rec_var) and \
+  if len(look) != 1 or len(adds) != 1:
+    raise AnalysisError("lookupOrAddDerived: expected one look-up and one AddRecord")
+  ok = len(look) == 1 and len(adds) == 1 and \
       not look[0][1].args and [text(k.value) for k in look[0][1].keywords
                                if k.arg is None] == [kw] and \
       len(adds[0][1].args) == 3 and text(adds[0][1].args[0]) == "self.table_id" and \
@@ -611,44 +652,57 @@ def r3_row_creation(run, w):
   if len(loops) != 1:
     raise AnalysisError("list helper: loop over the group-by columns not found")
   lp = loops[0]
-  apps = [s for s in lp.body if isinstance(s, ast.Expr) and isinstance(s.value, ast.Call) and
-          isinstance(s.value.func, ast.Attribute) and s.value.func.attr == "append"]
-  ok = len(apps) == 1 and lp.body[-1] is apps[0] and isinstance(apps[0].value.func.value, ast.Name)
-  LV = apps[0].value.func.value.id if ok else None
+  from ..index import FuncInfo
+  from ..fn import Fn
+  lfn = Fn(w, FuncInfo(wr.fi.module, wr.fi.cls, ld, wr.qualname + "." + ld.name, wr.fi))
+  lflow = H.Flow(lfn)
+  lcfg = lfn.cfg
+  def iter_of(s):
+    return H.resolve(lflow, s.iter) if isinstance(s.iter, ast.Name) else s.iter
+  prods = [s for s in walk_no_nested(ld) if isinstance(s, ast.For) and
+           any(isinstance(c, ast.Call) and endswith(dotted(c.func), "product")
+               for c in ast.walk(iter_of(s)))]
+  if len(prods) != 1:
+    raise AnalysisError("list helper: loop over the product of the components not found")
+  pl = prods[0]
+  pc = [c for c in ast.walk(iter_of(pl)) if isinstance(c, ast.Call) and
+        endswith(dotted(c.func), "product")][0]
+  if not (len(pc.args) == 1 and isinstance(pc.args[0], ast.Starred) and
+          isinstance(pc.args[0].value, ast.Name) and not pc.keywords):
+    raise AnalysisError("list helper: cannot read the product %s" % short(pc))
+  LV = pc.args[0].value.id
+  # the components: appended to that list in the loop over the group-by columns
+  apps = [(n, c) for (n, c, nm) in lfn.calls() if nm == LV + ".append" and len(c.args) == 1 and
+          any(x is c for x in ast.walk(lp))]
+  if len(apps) != 1:
+    raise AnalysisError("list helper: expected one %s.append in the loop over the group-by "
+                        "columns, found %d" % (LV, len(apps)))
+  (apn, apc) = apps[0]
+  lid = [n.id for n in lcfg.nodes if n.stmt is lp][0]
+  # every iteration that goes on to the next column has appended a component (leaving the whole
+  # helper early is not skipping a column)
+  ok = lid not in lcfg.reach_after({lid}, removed={apn.id})
   run.ob(R3, wr.qualname, "for group_col in %s: ...; %s.append(<values of that column>)"
-         % (ctx.p_groupby, LV), "every group-by column contributes one component (the append is "
-         "the unconditional last step of the loop body)", ok, fi=wr.fi, node=lp)
-  # de-duplication of list cells
-  val = apps[0].value.args[0].id if ok and isinstance(apps[0].value.args[0], ast.Name) else None
-  dd = False
-  if val:
-    for s in ast.walk(lp):
-      if isinstance(s, ast.If) and isinstance(s.test, ast.Call) and \
-          dotted(s.test.func) == "isinstance" and len(s.test.args) == 2 and \
-          isinstance(s.test.args[1], ast.Tuple) and text(s.test.args[0]) != val:
-        sets = [x for x in ast.walk(ast.Module(body=s.body, type_ignores=[]))
-                if isinstance(x, ast.Assign) and text(x.targets[0]) == val and
-                isinstance(x.value, ast.Call) and dotted(x.value.func) in ("set", "frozenset")
-                and [text(a) for a in x.value.args] == [val]]
-        handlers = [h for x in s.body if isinstance(x, ast.Try) for h in x.handlers]
-        bail = all(any(isinstance(y, ast.Return) for y in h.body) for h in handlers)
-        dd = dd or (bool(sets) and bail)
+         % (ctx.p_groupby, LV), "every group-by column contributes one component (no iteration "
+         "goes on to the next column without the append)", ok, fi=wr.fi, node=lp)
+  # de-duplication of list cells: what is appended is a set (of the cell's elements, or the
+  # sentinel) or the one-element list of a plain cell
+  dd = True
+  wit = None
+  for r in lflow.roots(apc.args[0], apn.id):
+    good = (r.kind == "call" and dotted(r.node.func) in ("set", "frozenset") and not r.path) or \
+        (r.kind == "lit" and isinstance(r.node, ast.Set) and not r.path) or \
+        (r.kind == "lit" and isinstance(r.node, ast.List) and len(r.node.elts) == 1 and
+         not r.path) or (r.kind == "comp" and isinstance(r.node, ast.SetComp) and not r.path)
+    if not good:
+      dd = False
+      wit = "a component may be %r" % (r,)
+  val = text(apc.args[0])
   run.ob(R3, wr.qualname, "%s = set(%s)" % (val, val), "the elements of a list cell are "
          "de-duplicated before keys are formed (a repeated element would otherwise request the "
-         "same new row twice)", dd, fi=wr.fi, node=lp)
-  prods = [s for s in ld.body if isinstance(s, ast.For) and
-           any(isinstance(c, ast.Call) and endswith(dotted(c.func), "product")
-               for c in ast.walk(s.iter))]
-  ok = False
-  pl = None
-  if len(prods) == 1:
-    pl = prods[0]
-    pc = [c for c in ast.walk(pl.iter) if isinstance(c, ast.Call) and
-          endswith(dotted(c.func), "product")][0]
-    ok = len(pc.args) == 1 and isinstance(pc.args[0], ast.Starred) and \
-        text(pc.args[0].value) == LV and not pc.keywords
+         "same new row twice)", dd, witness=wit, fi=wr.fi, node=lp)
   run.ob(R3, wr.qualname, "for values_tuple in product(*%s)" % LV, "one key per combination of "
-         "the components of all group-by columns", ok, fi=wr.fi, node=pl or ld)
+         "the components of all group-by columns", True, fi=wr.fi, node=pl)
   # look-up before add, per key
   ok = False
   add_guard_ok = False
@@ -684,6 +738,15 @@ def r3_row_creation(run, w):
     queued_vals = [s_ for s_ in walk_no_nested(pl) if isinstance(s_, ast.For) and s_ is not pl and
                    linl(s_.iter) == DICT_T + ".items()" and
                    H.f_equivalent(lcond.of_stmt(s_, scope=pl), H.f_not(has_row))]
+    # the three mechanisms must be there at all before their conditions are judged
+    any_found = [c for c in appends if is_rid(c.args[0])]
+    any_ids = [c for c in appends if isinstance(c.args[0], ast.Constant) and
+               c.args[0].value is None]
+    any_vals = [s_ for s_ in walk_no_nested(pl) if isinstance(s_, ast.For) and s_ is not pl and
+                linl(s_.iter) == DICT_T + ".items()"]
+    if not (any_found and any_ids and any_vals):
+      raise AnalysisError("list helper: cannot find how found rows are kept / missing keys are "
+                          "queued in the loop over the key combinations")
     ok = len(found) == 1 and len(queued_vals) == 1 and len(queued_ids) == 1
     if ok:
       NEW = text(queued_ids[0].func.value)
@@ -731,11 +794,13 @@ def r4_auto_remove(run, w):
   for n in rets:
     v = n.stmt.value
     marks = set()
-    if isinstance(v, ast.Name):
-      for (m, c, nm) in rd.calls():
-        if endswith(nm, "docmodel.setAutoRemove") and len(c.args) == 2 and \
-            text(c.args[0]) == p_rec and isinstance(c.args[1], ast.UnaryOp) and \
-            isinstance(c.args[1].op, ast.Not) and text(c.args[1].operand) == v.id:
+    rflow4 = H.Flow(rd)
+    tv = text(H.inline(rflow4, v, n.id))
+    for (m, c, nm) in H.calls(rd):
+      if endswith(nm, "setAutoRemove") and len(c.args) == 2 and text(c.args[0]) == p_rec:
+        a1 = H.inline(rflow4, c.args[1], m.id)
+        if isinstance(a1, ast.UnaryOp) and isinstance(a1.op, ast.Not) and \
+            text(a1.operand) == tv:
           marks.add(m.id)
     ok = bool(marks) and cfg.dominated_by(n.id, marks)
     wit = None
@@ -809,7 +874,8 @@ def r4_auto_remove(run, w):
       ok = isinstance(inner, ast.Name) and inner.id == snapname[0] and \
           flow.reaching(inner.id, retn)[0] == flow.reaching(inner.id, rn.id)[0]
     else:
-      ok = False      # the snapshot has no name: the result cannot be about the removed list
+      raise AnalysisError("apply_auto_removes: cannot relate the result %s to the records "
+                          "removed by %s" % (short(cases[0].value), short(rc)))
   run.ob(R4, ap.qualname, "return bool(<removed records>)", "the caller learns whether anything "
          "was removed (and hence whether another recalculation round is needed)", ok, fi=ap.fi)
 
